@@ -225,8 +225,58 @@ def gen(ctx):
            "; ".join("(%s, %s, %s)" % (_h(k), _h(n), q) for k, n, q in t["renames"]),
            "Definition samesite_values : list str := [%s]." % "; ".join(_h(v) for v in t["samesite"])]
     fw.write_if_changed(GEN_PATH, "\n".join(out) + "\n")
+    problems = problems + gen_dates(ctx)
     ctx.extra["tables"] = {"allowed": len(t["allowed"]), "token": len(t["token"]), "legal": len(t["legal"]),
                            "allowed_not_legal": bytes(sorted(set(t["allowed"]) - set(t["legal"]))).decode("latin-1")}
+    return problems
+
+
+# =========================================================================== gen: the tables of serialize_cookie_date
+GEN_DATES_PATH = os.path.join(fw.COQ, "Gen", "C07_dates.v")
+DATE_FORMAT = "%%s, %d-%%s-%%04d %H:%M:%S GMT"
+
+
+def gen_dates(ctx):
+    """Regenerate coq/Gen/C07_dates.v: the `weekdays` and `months` tuples of webob.cookies, and check (by ast) that
+    serialize_cookie_date still has the shape Model/C07_CookieDate.v mirrors.  Fail-closed."""
+    import ast
+    import inspect
+    ck = C()
+    problems = []
+    wd = getattr(ck, "weekdays", None)
+    mo = getattr(ck, "months", None)
+
+    def ok_name(x):
+        return isinstance(x, str) and all(ord(c) < 128 for c in x)
+    if not (isinstance(wd, (tuple, list)) and all(ok_name(x) for x in wd)):
+        problems.append("webob.cookies.weekdays is no longer a tuple of ASCII strings")
+        wd = ()
+    if not (isinstance(mo, (tuple, list)) and all(x is None or ok_name(x) for x in mo)):
+        problems.append("webob.cookies.months is no longer a tuple of ASCII strings / None")
+        mo = ()
+    try:
+        tree = ast.parse(inspect.getsource(ck.serialize_cookie_date).lstrip())
+        fn = tree.body[0]
+        consts = [n.value for n in ast.walk(fn) if isinstance(n, ast.Constant) and isinstance(n.value, str)]
+        calls = [ast.unparse(n) for n in ast.walk(fn) if isinstance(n, ast.Call)]
+        rets = [ast.unparse(n.value) for n in ast.walk(fn) if isinstance(n, ast.Return) and n.value is not None]
+        if DATE_FORMAT not in consts:
+            problems.append("serialize_cookie_date: the strftime format is no longer %r (found %r)" % (DATE_FORMAT, consts))
+        if not any(c.startswith("time.strftime(") and c.endswith(", v)") for c in calls):
+            problems.append("serialize_cookie_date: no time.strftime(<format>, v) call")
+        if not any("(weekdays[v[6]], months[v[1]], v[0])" in r and "'ascii'" in r for r in rets):
+            problems.append("serialize_cookie_date: the result is no longer r % (weekdays[v[6]], months[v[1]], v[0]) as ascii bytes")
+        if not any(c.replace(" ", "") == "datetime.utcnow()" for c in calls) or "v.timetuple()" not in calls:
+            problems.append("serialize_cookie_date: the utcnow()+timedelta / timetuple() steps are gone")
+    except Exception as e:  # noqa
+        problems.append("serialize_cookie_date: source cannot be analysed (%s)" % type(e).__name__)
+    out = ["(* GENERATED from src/webob/cookies.py of the tree under check by harness/props/c07.py - do not edit *)",
+           "From Coq Require Import NArith List String.", "Require Import Webob.Lib.Val.",
+           "Import ListNotations.", "Local Open Scope N_scope.",
+           "Definition weekdays : list str := [%s]." % "; ".join(_h(x.encode("ascii")) for x in wd),
+           "Definition months : list (option str) := [%s]." %
+           "; ".join("None" if x is None else "Some %s" % _h(x.encode("ascii")) for x in mo)]
+    fw.write_if_changed(GEN_DATES_PATH, "\n".join(out) + "\n")
     return problems
 
 
@@ -997,6 +1047,8 @@ def oracle_any(case):
     if case.get("optimize") and not sys.flags.optimize:
         res = run_under_optimize([case])
         return (res[0][1], res[0][2]) if res else None
+    if case.get("kind") == "cookie-date":
+        return oracle_date(case)
     return oracle_history(case) if "kind" in case else oracle(case)
 
 
@@ -1071,21 +1123,253 @@ MODELLED = [
     "webob.cookies:_rx_cookie", "webob.cookies:_rx_unquote", "webob.cookies:_unquote", "webob.cookies:_ch_unquote",
     "webob.cookies:_parse_cookie", "webob.cookies:parse_cookie", "webob.cookies:Cookie.load", "webob.cookies:Cookie.add",
     "webob.cookies:RequestCookies._cache", "webob.util:bytes_", "webob.util:text_",
+    "webob.cookies:serialize_cookie_date",          # Model/C07_CookieDate.v
 ]
 # objects gen() reads / translates into coq/Gen/C07_tables.v on every run
 REGENERATED = [
     "webob.cookies:_allowed_cookie_bytes", "webob.cookies:_valid_token_bytes", "webob.cookies:_escape_map",
     "webob.cookies:_path_quote", "webob.cookies:_rx_cookie", "webob.cookies:_rx_unquote", "webob.cookies:_ch_unquote_map",
     "webob.cookies:_c_keys", "webob.cookies:_c_valkeys", "webob.cookies:_c_renames", "webob.cookies:serialize_samesite",
+    "webob.cookies:weekdays", "webob.cookies:months",          # coq/Gen/C07_dates.v
 ]
-# exercised by the oracle only (no Gallina counterpart; the rendered date is an abstract input of the model)
+# exercised by the oracle only (no Gallina counterpart)
 ORACLE_ONLY = [
-    "webob.cookies:serialize_cookie_date", "webob.cookies:weekdays", "webob.cookies:months", "webob.cookies:__warn_or_raise",
+    "webob.cookies:__warn_or_raise",
     "webob.cookies:Cookie.serialize", "webob.cookies:Cookie.values", "webob.cookies:RequestCookies.items",
     "webob.cookies:RequestCookies.keys", "webob.cookies:RequestCookies.get", "webob.cookies:RequestCookies.__contains__",
     "webob.cookies:RequestCookies.__len__", "webob.request:BaseRequest.cookies", "webob.response:Response.headerlist",
     "webob.response:Response.delete_cookie", "webob.response:Response.charset",
 ]
+
+
+# =========================================================================== the expires date: model vs serialize_cookie_date
+DATE_IMPORTS = IMPORTS + ["Webob.Gen.C07_dates", "Webob.Model.C07_CookieDate"]
+TS_MIN, TS_MAX = -62135596800, 253402300799
+DATE_LOOSE_RX = re.compile(r"^(Mon|Tue|Wed|Thu|Fri|Sat|Sun), (\d\d)-(Jan|Feb|Mar|Apr|May|Jun|Jul|Aug|Sep|Oct|Nov|Dec)-(\d+) "
+                           r"(\d\d):(\d\d):(\d\d) GMT$")
+
+
+class FixedClock:
+    """datetime.utcnow() as seen by webob.cookies reads `now` (whole seconds since the epoch) for the duration of a call."""
+
+    def __init__(self, now):
+        self.now = now
+
+    def __enter__(self):
+        import datetime as dtm
+        ck = C()
+        self.saved = ck.datetime
+        fixed = dtm.datetime(1970, 1, 1) + dtm.timedelta(seconds=self.now)
+
+        class _Clock(dtm.datetime):
+            @classmethod
+            def utcnow(cls):
+                return fixed
+        ck.datetime = _Clock
+        return self
+
+    def __exit__(self, *a):
+        C().datetime = self.saved
+
+
+def _expires_of(line):
+    if not isinstance(line, str):
+        return line
+    if "expires=" not in line:
+        return None
+    return line.split("expires=", 1)[1].split(";", 1)[0]
+
+
+def date_call(case):
+    """The real rendering a cookie-date case asks for: text of the expires date, None, or Err(class)."""
+    import datetime as dtm
+    import time as _time
+    ck = C()
+    via = case["via"]
+
+    def txt(r):
+        return r.decode("latin-1") if isinstance(r, bytes) else r
+    if via in ("tuple", "datetime", "date", "gmtime", "morsel-datetime"):
+        w, d, m, y, hh, mi, ss = case["fields"]
+        if via == "tuple":
+            return txt(catch(ck.serialize_cookie_date, (y, m, d, hh, mi, ss, w, 1, 0)))
+        if via == "datetime":
+            return txt(catch(ck.serialize_cookie_date, dtm.datetime(y, m, d, hh, mi, ss)))
+        if via == "date":
+            return txt(catch(ck.serialize_cookie_date, dtm.date(y, m, d)))
+        if via == "gmtime":
+            return txt(catch(ck.serialize_cookie_date, _time.gmtime(case["t"])))
+        mo = ck.Morsel(b"n", b"v")
+        mo.expires = dtm.datetime(y, m, d, hh, mi, ss)
+        return _expires_of(catch(mo.serialize))
+    t, now = case["t"], case["now"]
+    v = t - now
+    with FixedClock(now):
+        if via == "int":
+            return txt(catch(ck.serialize_cookie_date, v))
+        if via == "timedelta":
+            return txt(catch(lambda: ck.serialize_cookie_date(dtm.timedelta(seconds=v))))
+        if via == "make_cookie-int":
+            return _expires_of(catch(ck.make_cookie, "n", "v", max_age=v, path=None))
+        if via == "make_cookie-timedelta":
+            return _expires_of(catch(lambda: ck.make_cookie("n", "v", max_age=dtm.timedelta(seconds=v), path=None)))
+        if via == "set_cookie":
+            from webob import Response
+
+            def call():
+                resp = Response()
+                resp.set_cookie("n", "v", max_age=v, path=None)
+                return resp.headers.getall("Set-Cookie")[-1]
+            return _expires_of(catch(call))
+    raise ValueError("unknown cookie-date case %r" % (via,))
+
+
+def date_fields_of(case):
+    """The (weekday, day, month, year, h, m, s) the case asks for, by Python's own calendar (no webob code)."""
+    import datetime as dtm
+    if "fields" in case:
+        return tuple(case["fields"])
+    if not TS_MIN <= case["t"] <= TS_MAX:
+        return None
+    x = dtm.datetime(1970, 1, 1) + dtm.timedelta(seconds=case["t"])
+    return (x.weekday(), x.day, x.month, x.year, x.hour, x.minute, x.second)
+
+
+def oracle_date(case):
+    """The statement on the expires attribute alone: printable, no delimiter exposed, denotes the requested instant,
+    and webob's own Cookie reads it back in full.  None if it holds."""
+    got = date_call(case)
+    f = date_fields_of(case)
+    proper = f is not None and f[0] < 7 and 1 <= f[1] <= 31 and 1 <= f[2] <= 12 and 1 <= f[3] <= 9999 and f[4] < 24 \
+        and f[5] < 60 and f[6] <= 61
+    if not proper:
+        return None                                   # outside what Python produces itself: nothing is claimed
+    if isinstance(got, Err):
+        return ("expires-date:spurious-raise:" + got.name, "rendering the expires date of %r raises %s" % (case, got.name))
+    if got is None:
+        return ("expires-date:missing", "no expires attribute for %r" % (case,))
+    if any(not (32 <= ord(c) <= 126) or c in ';"\\' for c in got):
+        return ("expires-date:delimiter-exposed", "the expires date %r exposes a delimiter / non-printable character" % got)
+    mt = DATE_LOOSE_RX.match(got)
+    if not mt:
+        return ("expires-date:shape", "the expires date %r is not 'Www, dd-Mmm-yyyy hh:mm:ss GMT'" % got)
+    back = (DAYS.index(mt.group(1)), int(mt.group(2)), MONTHS.index(mt.group(3)) + 1, int(mt.group(4)), int(mt.group(5)),
+            int(mt.group(6)), int(mt.group(7)))
+    if back != tuple(f):
+        return ("expires-date:wrong-instant", "the expires date %r does not denote the requested %r" % (got, f))
+    ck = C()
+    jar = ck.Cookie("n=v; expires=" + got)
+    seen = [mo.expires for mo in jar.values()]
+    if len(seen) != 1 or seen[0] != got.encode("ascii"):
+        return ("expires-date:not-read-back", "webob's own Cookie() reads the expires attribute %r back as %r (case %s)"
+                % (got, seen, json.dumps(case)))
+    return None
+
+
+def run_date_corr(ctx):
+    """Model/C07_CookieDate.v against the real serialize_cookie_date / make_cookie / Response.set_cookie."""
+    import datetime as dtm
+    if not getattr(ctx, "build_ok", False):
+        return
+    rng = ctx.sub_rng("date-corr")
+    n = ctx.scale(260, 2500)
+    fcases = []
+
+    def add_fields(via, f, **kw):
+        c = {"kind": "cookie-date", "via": via, "fields": list(f)}
+        c.update(kw)
+        fcases.append(c)
+    # raw time tuples: every weekday x month, boundary years, leap seconds, out-of-range fields
+    for w in range(7):
+        for m in range(1, 13):
+            add_fields("tuple", (w, rng.randrange(1, 32), m, rng.choice([1, 9, 10, 99, 100, 999, 1000, 1970, 1999, 2000, 2026, 9999]),
+                                 rng.randrange(24), rng.randrange(60), rng.randrange(62)))
+    for y in (0, 1, 5, 9, 10, 11, 99, 100, 999, 1000, 1969, 1970, 1999, 2000, 2038, 9999, 10000, 12345):
+        add_fields("tuple", (rng.randrange(7), 1, 1, y, 0, 0, 0))
+        add_fields("tuple", (rng.randrange(7), 31, 12, y, 23, 59, 59))
+    for f in [(0, 1, 1, 2024, 0, 0, 60), (0, 1, 1, 2024, 0, 0, 61), (0, 1, 1, 2024, 0, 0, 62), (0, 1, 0, 2024, 1, 2, 3),
+              (0, 1, 13, 2024, 1, 2, 3), (0, 0, 1, 2024, 1, 2, 3), (0, 32, 1, 2024, 1, 2, 3), (0, 1, 1, 2024, 24, 2, 3),
+              (0, 1, 1, 2024, 1, 60, 3), (7, 1, 1, 2024, 1, 2, 3), (8, 1, 13, 2024, 1, 2, 3), (6, 31, 12, 2024, 23, 59, 61),
+              (9, 0, 0, 0, 0, 0, 0), (0, 0, 0, 0, 0, 0, 0), (6, 29, 2, 2024, 12, 0, 0), (3, 100, 1, 2024, 1, 2, 3)]:
+        add_fields("tuple", f)
+    for _ in range(n // 4):
+        add_fields("tuple", (rng.randrange(7), rng.randrange(1, 32), rng.randrange(1, 13), rng.randrange(0, 10000),
+                             rng.randrange(24), rng.randrange(60), rng.randrange(62)))
+    # datetime / date / gmtime / Morsel.expires = datetime: the weekday is Python's own
+    stamps = [dtm.datetime(1, 1, 1), dtm.datetime(1, 12, 31, 23, 59, 59), dtm.datetime(9, 12, 31, 23, 59, 59), dtm.datetime(10, 1, 1),
+              dtm.datetime(99, 12, 31, 23, 59, 59), dtm.datetime(100, 1, 1), dtm.datetime(999, 12, 31, 23, 59, 59),
+              dtm.datetime(1000, 1, 1), dtm.datetime(1969, 12, 31, 23, 59, 59), dtm.datetime(1970, 1, 1),
+              dtm.datetime(1999, 12, 31, 23, 59, 59), dtm.datetime(2000, 1, 1), dtm.datetime(2000, 2, 29, 12, 0, 0),
+              dtm.datetime(1900, 2, 28, 23, 59, 59), dtm.datetime(1900, 3, 1), dtm.datetime(2024, 2, 29, 23, 59, 59),
+              dtm.datetime(2024, 3, 1), dtm.datetime(2100, 2, 28, 23, 59, 59), dtm.datetime(2100, 3, 1),
+              dtm.datetime(2038, 1, 19, 3, 14, 8), dtm.datetime(9999, 1, 1), dtm.datetime(9999, 12, 31, 23, 59, 59),
+              dtm.datetime(4, 2, 29), dtm.datetime(400, 2, 29), dtm.datetime(9996, 2, 29)]
+    stamps += [dtm.datetime(2026, 10, 1) + dtm.timedelta(days=k) for k in range(7)]
+    stamps += [dtm.datetime(2025, m, 15, 6, 7, 8) for m in range(1, 13)]
+    for _ in range(n // 2):
+        stamps.append(dtm.datetime(1, 1, 1) + dtm.timedelta(seconds=rng.randrange(0, TS_MAX - TS_MIN + 1)))
+    for _ in range(n // 4):
+        stamps.append(dtm.datetime(rng.choice([1, 2, 9, 10, 99, 100, 1999, 2000, 2023, 2024, 9999]), rng.randrange(1, 13),
+                                   rng.randrange(1, 29), rng.randrange(24), rng.randrange(60), rng.randrange(60)))
+    epoch = dtm.datetime(1970, 1, 1)
+    for i, x in enumerate(stamps):
+        via = ("datetime", "morsel-datetime", "date", "gmtime", "datetime")[i % 5]
+        if via == "date":
+            x = dtm.datetime(x.year, x.month, x.day)
+        f = (x.weekday(), x.day, x.month, x.year, x.hour, x.minute, x.second)
+        if via == "gmtime":
+            add_fields(via, f, t=int((x - epoch).total_seconds()))
+        else:
+            add_fields(via, f)
+    cases = []
+    for c in fcases:
+        out = date_call(c)
+        cases.append(("(%s)" % ", ".join("%d%%N" % k for k in c["fields"]), out, c))
+    bad = ctx.corr("cookie_date_fields", DATE_IMPORTS, "cd_fields_val", cases, in_type="(N * N * N * N * N * N * N)")
+    date_disagreements(ctx, "cookie_date_fields", fcases, cases, bad)
+
+    # the instant utcnow()+max_age through the int / timedelta paths, make_cookie and Response.set_cookie (fixed clock)
+    tcases = []
+    now0 = 1790000000 + rng.randrange(0, 10 ** 7)
+    ts = [TS_MIN - 1, TS_MIN, TS_MIN + 1, TS_MIN + 86399, TS_MIN + 86400, -59011459201, -59011459200, -1, 0, 1, 86399, 86400,
+          946684799, 946684800, 951782400, 951868799, 2147483647, 2147483648, 4107542399, 4107542400, TS_MAX - 86400,
+          TS_MAX - 1, TS_MAX, TS_MAX + 1, TS_MAX + 86400, now0, now0 + 1, now0 - 1, now0 + 86400, now0 + 31536000]
+    ts += [int((dtm.datetime(y, 12, 31, 23, 59, 59) - epoch).total_seconds()) + k
+           for y in (1, 9, 99, 999, 1899, 1999, 2023, 2024, 2099, 2399, 9998) for k in (0, 1)]
+    ts += [int((dtm.datetime(y, 2, 28, 23, 59, 59) - epoch).total_seconds()) + k
+           for y in (4, 100, 1900, 2000, 2024, 2025, 2100, 2400) for k in (0, 1, 86400, 86401)]
+    ts += [now0 + rng.randrange(-10 ** 6, 10 ** 8) for _ in range(n // 4)]
+    ts += [rng.randrange(TS_MIN - 10 ** 6, TS_MAX + 10 ** 6) for _ in range(n // 2)]
+    ts += [int((dtm.datetime(2026, 1, 1) - epoch).total_seconds()) + 86400 * k + rng.randrange(86400) for k in range(0, 365, 9)]
+    vias = ("int", "timedelta", "make_cookie-int", "make_cookie-timedelta", "set_cookie")
+    for i, t in enumerate(ts):
+        tcases.append({"kind": "cookie-date", "via": vias[i % 5], "t": t, "now": now0})
+    cases = [(cZ(c["t"]), date_call(c), c) for c in tcases]
+    bad = ctx.corr("cookie_date_instant", DATE_IMPORTS, "cd_of_ts_val", cases, in_type="Z")
+    date_disagreements(ctx, "cookie_date_instant", tcases, cases, bad)
+    ctx.extra["date_cases"] = {"fields": len(fcases), "instants": len(tcases)}
+    # the statement itself on every one of these dates (small years included): printable, no delimiter, denotes the
+    # requested instant, and webob's own Cookie() reads the expires attribute back whole
+    nontrivial = 0
+    for c in fcases + tcases:
+        res = oracle_date(c)
+        f = date_fields_of(c)
+        if f is not None and 1 <= f[3] <= 9999:
+            nontrivial += 1
+        if res:
+            ctx.fail(res[0], res[1], c, True, "expires-dates")
+    ctx.oracle_count("expires-dates", len(fcases) + len(tcases), nontrivial)
+
+
+def date_disagreements(ctx, name, dcases, cases, bad):
+    shown = 0
+    for i in bad:
+        if shown >= 5:
+            break
+        if oracle_date(dcases[i]) is None:        # failures of the statement are reported by the expires-dates sweep
+            shown += 1
+            ctx.broken.append("correspondence %s: model and implementation disagree on %s (implementation gives %r)"
+                              % (name, json.dumps(dcases[i]), cases[i][1]))
 
 
 def run(ctx):
@@ -1201,6 +1485,8 @@ def run(ctx):
                        "(fun d => VBool (cookie_date d && plain d))", cases, in_type="str")
         for i in bad[:3]:
             ctx.broken.append("rendered date %r does not satisfy the date hypotheses (cookie_date, plain) of the theorems" % ds[i])
+
+    run_date_corr(ctx)
 
     # ------------------------------------------------------------------ oracle sweep on the public API
     run_oracle(ctx)
